@@ -11,11 +11,68 @@ COLS = [
 PALETTE = [0.1, 1.0 / 3.0, -2.5, 16777217.0, 1e-7, -0.0, 3.0e38, 1e-40, 123456.789012345, -7.0, 0.5, 2.5, 1e16 + 2]
 
 
-def frame(rows, columns=None):
-    """rows: list of dicts (missing fields -> 0.0).  columns: column order of the produced table."""
+INDEX_KINDS = ("default", "gapped", "reversed")
+_FORCED = None
+
+
+class force_index:
+    """Context manager: every table built by frame() inside carries the given kind of row index."""
+
+    def __init__(self, kind):
+        self.kind = kind
+
+    def __enter__(self):
+        global _FORCED
+        self.old = _FORCED
+        _FORCED = self.kind
+
+    def __exit__(self, *a):
+        global _FORCED
+        _FORCED = self.old
+        return False
+
+
+def with_row_index_kinds(fam, select=None, kinds=("gapped", "reversed"), name=None, expect=()):
+    """A second family over (a selection of) the cases of `fam`, crossed with non-default row-index kinds: the same
+    particle lists as they look after sort_values / remove_feature / boolean filtering (hidden representation state)."""
+    from .engine import Family
+    from .space import Listed, Product
+
+    base = fam.space if select is None else Listed([c for c in fam.space if select(c)])
+    execute = fam.execute
+
+    def ex(case, obs):
+        with force_index(case[1]):
+            return execute(case[0], obs)
+
+    return Family(name or fam.name + "@row-index", Product(base, list(kinds)), ex, expect=expect,
+                  describe=lambda c: {"case": fam.describe(c[0]), "row_index": c[1]})
+
+
+def index_labels(n, kind):
+    """Row labels a particle table carries after earlier operations: default 0..n-1, gapped (remove_feature, boolean
+    filtering), reversed (sort_values)."""
+    if kind == "default":
+        return list(range(n))
+    if kind == "gapped":
+        return [3 * i + 2 for i in range(n)]
+    if kind == "reversed":
+        return list(range(n - 1, -1, -1))
+    raise ValueError(kind)
+
+
+def frame(rows, columns=None, index_kind=None):
+    """rows: list of dicts (missing fields -> 0.0).  columns: column order of the produced table.
+    index_kind: one of INDEX_KINDS (default: VERIF_FORCE_INDEX or "default")."""
+    import os
+
     columns = list(columns) if columns is not None else COLS
     data = {c: np.array([float(r.get(c, 0.0)) for r in rows], dtype=np.float64) for c in columns}
-    return pd.DataFrame(data, columns=columns)
+    df = pd.DataFrame(data, columns=columns)
+    kind = index_kind or _FORCED or os.environ.get("VERIF_FORCE_INDEX", "default")
+    if kind != "default":
+        df.index = index_labels(len(df), kind)
+    return df
 
 
 def df_rows(df):
